@@ -1,7 +1,97 @@
-(** C02 — property theorems (stage a placeholder). *)
-From Akita Require Import Lib.Base Lib.Engine C01.Model C02.Model.
+(** C02 — RunUntil boundaries do not change what runs or in what order.  Property theorems only.
 
-Theorem c02_empty_returns : forall p cap bs,
-  forallb (fun r => match r_out r with Done => true | _ => false end) (run_script_segments p cap [] bs) = true.
-Proof. intros p cap bs. induction bs as [|b r IH]; [reflexivity|exact IH]. Qed.
-Print Assumptions c02_empty_returns.
+    Setting: arbitrary event type, arbitrary handler program [H]; [run_until t] is RunUntil(t), [run]
+    is Run, [run_segments bs] is the driver "RunUntil b1; ...; RunUntil bk; Run" (it stops at the first
+    call that does not return normally); fuel bounds the number of loop iterations of each call,
+    "the call returned" is [r_out r = Done]; [e_ok] is the engine invariant (C01/Property.v). *)
+From Akita Require Import Lib.Base Lib.Engine Lib.EngineProofs Lib.EngineRunProofs C01.Model C01.Proofs C02.Model C02.Proofs.
+From Coq Require Import Permutation Sorted.
+Local Open Scope N_scope.
+
+(** A RunUntil(t) call that returns has handled only events with time <= t, and precisely those:
+    the handled entries are the entries with time <= t among everything queued before the call or
+    scheduled during it; the entries with a later time are exactly what is still queued; the clock
+    is at the last handled event (unchanged if nothing was handled); the invariant holds again. *)
+Theorem c02_segment_exact :
+  forall (E : Type) (etime : E -> N) (esec : E -> bool) (HS : Type) (H : HS -> E -> HS * list E),
+  H_ok etime H -> forall t fuel hs en0, e_ok etime esec en0 ->
+  let r := run_until etime esec H t fuel hs en0 in
+  r_out r = Done ->
+  (forall x, In x (handled (r_log r)) -> qtime etime x <= t) /\
+  (forall y, In y (pending (r_en r)) -> t < qtime etime y) /\
+  Permutation (handled (r_log r))
+    (filter (fun x => qtime etime x <=? t) (pending en0 ++ scheduled (r_log r))) /\
+  Permutation (pending (r_en r))
+    (filter (fun x => negb (qtime etime x <=? t)) (pending en0 ++ scheduled (r_log r))) /\
+  e_now (r_en r) = last (map (qtime etime) (handled (r_log r))) (e_now en0) /\
+  e_ok etime esec (r_en r).
+Proof. intros E etime esec HS H HH t fuel hs en0. exact (g_segment_exact etime esec H HH t fuel hs en0). Qed.
+Print Assumptions c02_segment_exact.
+
+(** RunUntil never panics for handlers that do not schedule in the past, and even a call cut short
+    by the fuel bound has only handled events with time <= t. *)
+Theorem c02_run_until_safe :
+  forall (E : Type) (etime : E -> N) (esec : E -> bool) (HS : Type) (H : HS -> E -> HS * list E),
+  H_ok etime H -> forall t fuel hs en0, e_ok etime esec en0 ->
+  let r := run_until etime esec H t fuel hs en0 in
+  r_out r <> Panicked /\ (forall x, In x (handled (r_log r)) -> qtime etime x <= t).
+Proof. intros E etime esec HS H HH t fuel hs en0. exact (g_until_prefix_le etime esec H HH t fuel hs en0). Qed.
+Print Assumptions c02_run_until_safe.
+
+(** Boundaries are invisible: for EVERY handler program (even one that panics), every engine state
+    and EVERY list of boundaries (increasing, repeated, decreasing), whenever a single Run ends within
+    the fuel bound, the driver RunUntil b1; ...; RunUntil bk; Run ends as well, every call but the last
+    returns normally, the concatenated handled/scheduled logs equal the log of the single Run, and
+    the last call ends with the same outcome, handler state and engine state (clock and queues). *)
+Theorem c02_concat :
+  forall (E : Type) (etime : E -> N) (esec : E -> bool) (HS : Type) (H : HS -> E -> HS * list E)
+         (bs : list N) (fuel : nat) (hs : HS) (en : @engine E),
+  let r := run etime esec H fuel hs en in
+  r_out r <> OutOfFuel ->
+  exists rs rl, run_segments etime esec H bs fuel hs en = rs ++ [rl] /\
+    Forall (fun x => r_out x = Done) rs /\
+    flat_map (@r_log E HS) (rs ++ [rl]) = r_log r /\
+    r_out rl = r_out r /\ r_hs rl = r_hs r /\ r_en rl = r_en r.
+Proof. intros E etime esec HS H bs fuel hs en. exact (run_segments_concat etime esec H bs fuel hs en). Qed.
+Print Assumptions c02_concat.
+
+(** RunUntil(t) alone is a prefix of Run: Run = RunUntil(t) followed by Run. *)
+Theorem c02_run_until_split :
+  forall (E : Type) (etime : E -> N) (esec : E -> bool) (HS : Type) (H : HS -> E -> HS * list E)
+         (t : N) (fuel : nat) (hs : HS) (en : @engine E),
+  let r := run etime esec H fuel hs en in
+  let u := run_until etime esec H t fuel hs en in
+  r_out r <> OutOfFuel ->
+  match r_out u with
+  | Done => r = app_log (r_log u) (run etime esec H fuel (r_hs u) (r_en u))
+  | Panicked => u = r
+  | OutOfFuel => False
+  end.
+Proof. intros E etime esec HS H t fuel hs en r u Hno. exact (run_until_prefix etime esec H t fuel hs en Hno). Qed.
+Print Assumptions c02_run_until_split.
+
+(** In the driver every RunUntil(b) call is exact in the sense of [c02_segment_exact], relative to
+    the state the previous call left. *)
+Theorem c02_driver_segments_exact :
+  forall (E : Type) (etime : E -> N) (esec : E -> bool) (HS : Type) (H : HS -> E -> HS * list E),
+  H_ok etime H -> forall bs fuel hs en0, e_ok etime esec en0 ->
+  segs_exact etime bs en0 (run_segments etime esec H bs fuel hs en0).
+Proof. intros E etime esec HS H HH bs fuel hs en0. exact (g_segs_exact etime esec H HH bs fuel hs en0). Qed.
+Print Assumptions c02_driver_segments_exact.
+
+(* ------------------------------------------------------------------ non-vacuity *)
+
+(** a chain 10,20,...,100 with boundaries between, at, repeated and beyond event times: all calls
+    return, the RunUntil calls handle 2,0,3,0,5 events, the final Run none *)
+Definition ex_chain : program := [ [ [Sp 10 0 false] ] ].
+Example c02_nonvacuous :
+  H_ok s_time (script_handler ex_chain) /\
+  let rs := run_script_segments ex_chain 9 [(10, 0, false, 20)] [25; 25; 50; 50; 1000] in
+  map (fun r => (match r_out r with Done => true | _ => false end, length (r_log r), e_now (r_en r))) rs =
+  [(true, 2%nat, 20); (true, 0%nat, 20); (true, 3%nat, 50); (true, 0%nat, 50); (true, 5%nat, 100); (true, 0%nat, 100)].
+Proof.
+  split.
+  - apply script_H_ok. intros alts alt sp Ha Hb Hc. cbn in Ha. destruct Ha as [<-|[]].
+    cbn in Hb. destruct Hb as [<-|[]]. cbn in Hc. destruct Hc as [<-|[]]. cbn. lia.
+  - vm_compute. reflexivity.
+Qed.
